@@ -222,6 +222,32 @@ func directedCredit() []hist {
 		h.add(claimLine(3, 1, 31, snd0, 4, "1000", "usdc", tok1, 2))    // late
 		hs = append(hs, h)
 	}
+	// restart from the exported genesis in the middle of a history: a credited event, a failed one and a pending one
+	// are carried; re-sent, late and conflicting claims after the restart credit nothing a second time
+	{
+		var h hist
+		stdSetup(&h, []int64{40, 30, 30}, nil, "0,1,2")
+		h.add(claimLine(0, 1, 61, snd0, 4, "10", "eth", tok0, 2))
+		h.add(claimLine(1, 1, 61, snd0, 4, "10", "eth", tok0, 2)) // 70 %: credited
+		h.add(claimLine(0, 1, 62, snd0, 4, "1", "eth", tok0, 2))
+		h.add(claimLine(1, 1, 62, snd0, 4, "2", "eth", tok0, 2))
+		h.add(claimLine(2, 1, 62, snd0, 4, "3", "eth", tok0, 2)) // failed
+		h.add(claimLine(0, 1, 63, snd0, 5, "7", "usdc", tok1, 2)) // pending
+		h.add("restart")
+		h.add(claimLine(0, 1, 61, snd0, 4, "10", "eth", tok0, 2)) // re-sent
+		h.add(claimLine(1, 1, 61, snd0, 4, "10", "eth", tok0, 2))
+		h.add(claimLine(2, 1, 61, snd0, 5, "99", "eth", tok0, 2)) // late, conflicting
+		h.add(claimLine(0, 1, 62, snd0, 4, "1", "eth", tok0, 2))
+		h.add(claimLine(1, 1, 62, snd0, 4, "1", "eth", tok0, 2))
+		h.add(claimLine(0, 1, 63, snd0, 5, "7", "usdc", tok1, 2)) // duplicate of the carried pending claim
+		h.add(claimLine(1, 1, 63, snd0, 5, "7", "usdc", tok1, 2)) // completes it: credited once
+		h.add("restart")
+		h.add("restart")
+		h.add(claimLine(0, 1, 63, snd0, 5, "7", "usdc", tok1, 2))
+		h.add(claimLine(1, 1, 63, snd0, 5, "7", "usdc", tok1, 2))
+		h.add(claimLine(2, 1, 61, snd0, 4, "10", "eth", tok0, 2))
+		hs = append(hs, h)
+	}
 	return hs
 }
 
@@ -449,6 +475,10 @@ func randomHistory(rng *Rng, profile string) hist {
 		pClaim, pWl, pVal = 60, 6, 4
 	}
 	for k := 0; k < nops; k++ {
+		if rng.Chance(1, 30) {
+			h.add("restart") // restart from the exported genesis; claims are re-sent afterwards by the ordinary draws
+			continue
+		}
 		r := rng.Intn(100)
 		switch {
 		case r < pClaim:
@@ -596,6 +626,13 @@ func shrinkHistory(rng *Rng, profile string) hist {
 		completer = perm[rng.Intn(k)] // a validator that already claimed A: duplicate
 	}
 	h.add("tx claim %s 1 %d %s %s", sp(rng, completer, 15), ev, snd, B)
+	if rng.Chance(1, 3) {
+		// restart from the exported genesis, then the validators re-send what they claimed
+		h.add("restart")
+		for i := 0; i < k; i++ {
+			h.add("tx claim %d 1 %d %s %s", perm[i], ev, snd, A)
+		}
+	}
 	// afterwards: late claims of either content, by anybody
 	for i := rng.Intn(4); i > 0; i-- {
 		c := A
